@@ -21,6 +21,9 @@ func init() {
 	register(&Workload{Prop: "C04", Variant: "ask", Horizon: 30 * time.Minute, MaxSteps: 400000, MaxG: 4096, Spin: 10000, PCTLen: 4000, Race: true, Weight: 3, Body: func(r *R) { c04Ask(r, false) }})
 	// the asker dies with several Asks outstanding while some of them are being completed at the same instant
 	register(&Workload{Prop: "C04", Variant: "asker-death", Horizon: 30 * time.Minute, MaxSteps: 400000, MaxG: 4096, Spin: 10000, PCTLen: 2500, Race: true, Weight: 1, Body: func(r *R) { c04Ask(r, true) }})
+	// the asker terminates by way of a supervised restart: killed while the restart waits for a child, or a failed
+	// restart hook (zombie) followed by a kill
+	register(&Workload{Prop: "C04", Variant: "asker-restart-death", Horizon: 30 * time.Minute, MaxSteps: 400000, MaxG: 4096, Spin: 10000, PCTLen: 2500, Weight: 1, Body: func(r *R) { c04AskMode(r, true, true) }})
 }
 
 type c04Req struct {
@@ -62,8 +65,20 @@ type c04AskT struct {
 
 
 
-func c04Ask(r *R, deathFocus bool) {
-	w := newWorld(r, WorldOpt{})
+func c04Ask(r *R, deathFocus bool) { c04AskMode(r, deathFocus, false) }
+
+func c04AskMode(r *R, deathFocus, viaRestart bool) {
+	opt := WorldOpt{}
+	zombie := false
+	if viaRestart {
+		zombie = r.Chance(50)
+		opt.MakeStrategy = func(w *World) vivid.SupervisionStrategy {
+			return vivid.OneForOneStrategy(w.NewMaker("system", func(n int, ctx vivid.SupervisionContext) vivid.SupervisionDecision {
+				return vivid.SupervisionDecisionRestart
+			}))
+		}
+	}
+	w := newWorld(r, opt)
 	if r.Failed() {
 		return
 	}
@@ -109,7 +124,15 @@ func c04Ask(r *R, deathFocus bool) {
 		}
 	}
 	for i := 0; i < nAskers; i++ {
-		if _, err := w.Spawn(&Spec{Name: fmt.Sprintf("a%d", i)}); err != nil {
+		spec := &Spec{Name: fmt.Sprintf("a%d", i)}
+		if viaRestart && i == 0 {
+			// a child that takes a while to die keeps the restart (and a kill arriving meanwhile) waiting
+			spec.Children = []*Spec{{Name: "c", OnKill: func(ctx vivid.ActorContext, p *Probe) { vsimrt.Sleep(150 * time.Millisecond) }}}
+			if zombie {
+				spec.Restarted = func(p *Probe) error { return errors.New("restart hook fails") }
+			}
+		}
+		if _, err := w.Spawn(spec); err != nil {
 			r.Fail("C04/harness", "spawn: %v", err)
 			return
 		}
@@ -150,7 +173,7 @@ func c04Ask(r *R, deathFocus bool) {
 			} else if r.Chance(50) {
 				a.req.Mode = 4
 			}
-			if a.timeout <= killAt {
+			if a.timeout <= killAt || (viaRestart && a.timeout <= killAt+time.Second) {
 				a.timeout = 30 * time.Second
 			}
 		}
@@ -243,6 +266,18 @@ func c04Ask(r *R, deathFocus bool) {
 	killedAt := time.Duration(-1)
 	if killAsker >= 0 {
 		vsimrt.Sleep(killAt)
+		if viaRestart {
+			// the asker fails; its supervisor restarts it; the kill below arrives while the restart waits for the child
+			// (or, with a failing restart hook, after the asker became a zombie)
+			w.Tell(w.RefBy("create", nil, "/a0"), w.NewCmd("fail", 0, func(ctx vivid.ActorContext, p *Probe) { panic("asker fails") }))
+			if zombie {
+				vsimrt.Sleep(400 * time.Millisecond)
+				r.Count("asker-zombie-then-killed")
+			} else {
+				vsimrt.Sleep(time.Duration(r.Choose(3)) * 50 * time.Millisecond)
+				r.Count("asker-killed-during-restart")
+			}
+		}
 		mu.Lock()
 		killedAt = w.now()
 		mu.Unlock()
